@@ -679,6 +679,42 @@ impl<'a, 'b> Script<'a, 'b> {
             }
             let mut sent = Vec::new();
             let noisy = self.t.chance(1, 3);
+            // split round (an equivocating leader made the voters disagree): every puppet votes once,
+            // some for the tip and the others for another block of the round, and neither block
+            // reaches the quorum - no certificate may come out of the mixed votes
+            let split = !noisy && self.t.chance(1, 6);
+            if split {
+                let q = self.w.quorum();
+                let mine = self.w.stake_of(&[self.sut]);
+                let other = sha512_32(&[tip_round as u8, 0x5B, self.t.below(200) as u8]);
+                let mut for_tip: Vec<usize> = Vec::new();
+                let mut for_other: Vec<usize> = Vec::new();
+                for v in voters.clone() {
+                    let mut with_v = for_tip.clone();
+                    with_v.push(v);
+                    if self.w.stake_of(&with_v) + mine < q {
+                        for_tip.push(v);
+                    } else {
+                        for_other.push(v);
+                    }
+                }
+                if !for_other.is_empty() && self.w.stake_of(&for_other) < q {
+                    // interleave the two camps in the shuffled order
+                    for v in voters.clone() {
+                        let h = if for_tip.contains(&v) { tip.clone() } else { other.clone() };
+                        let vote = self.w.vote_for(v, h, tip_round);
+                        self.send_to_sut(v, &ConsensusMessage::Vote(vote)).await;
+                        if self.t.chance(1, 6) {
+                            tokio::time::sleep(ms(2)).await;
+                        }
+                    }
+                    self.note(json!({"step": "split-votes-to-sut", "for_round": tip_round, "for_tip": for_tip, "for_other": for_other}));
+                    self.stat("split-votes-to-sut");
+                    self.settle().await;
+                    self.timeout_round(round, true).await;
+                    return;
+                }
+            }
             self.mark_certified(&tip);
             for v in voters.clone() {
                 if noisy && self.t.chance(1, 4) {
